@@ -9,12 +9,7 @@ Open Scope Z_scope.
 Lemma src_tapleaf_tagged_hash_eq : forall sha256 s,
   src_tapleaf_tagged_hash sha256 s = of_option (tapleaf_tagged_hash sha256 s).
 Proof.
-  intros. unfold src_tapleaf_tagged_hash, tapleaf_tagged_hash, Schnorr.obind.
-  unfold py_bytes1. eval_closed.
-  destruct (to_bytes s) as [sb|]; [|reflexivity].
-  rewrite src_prepend_compact_size_eq.
-  destruct (prepend_compact_size sb) as [ps|]; cbn [of_option]; [|reflexivity].
-  cbv zeta.
+  intros. unfold src_tapleaf_tagged_hash, tapleaf_tagged_hash, Schnorr.obind, py_bytes1.
   destruct ((0 <=? leaf_version_tapscript) && (leaf_version_tapscript <? 256)) eqn:E; [|vm_compute in E; discriminate E].
-  rewrite src_tagged_hash_eq. reflexivity.
+  tie_pipe.
 Qed.
